@@ -625,6 +625,12 @@ fn add_path_data<W: Write>(
                 }
             }
 
+            // The duplicated-point form would be read back differently if
+            // the previous point already has the same position.
+            if i > 0 && control_points[i - 1].pos == point.pos {
+                needs_explicit_segment = true;
+            }
+
             // A duplicated point at the end of a segment is not read back as
             // a segment start so the last point and points directly followed
             // by another segment start require an explicit type.
